@@ -46,16 +46,20 @@ fn alg_of(name: &str) -> iana::Algorithm {
         "ES256" => iana::Algorithm::ES256,
         "RS256" => iana::Algorithm::RS256,
         "EdDSA" => iana::Algorithm::EdDSA,
+        "HMAC" => iana::Algorithm::HMAC_256_256,
+        "A128GCM" => iana::Algorithm::A128GCM,
+        "zero" => iana::Algorithm::Reserved,
         _ => iana::Algorithm::ES512,
     }
 }
 
 pub fn build_auth(cfg: &Value, creds: Vec<Passkey>, sh: &Sh) -> Auth {
-    let store = new_store_wrapped(
+    let store = new_store_full(
         cfg["storeKind"].as_str().unwrap(),
         cfg["wrap"].as_str().unwrap_or("none"),
         cfg["disc"].as_str().unwrap(),
         cfg["emptyAsErr"].as_bool().unwrap(),
+        cfg["order"].as_str() == Some("newest"),
         creds,
         sh,
     );
@@ -264,7 +268,7 @@ impl Run {
         s.cancelled = false;
         s.fallible_calls = 0;
         s.cancel_at = env["cancelAt"].as_i64().unwrap();
-        s.faults = env["faults"].as_array().unwrap().iter().map(|v| v.as_u64().unwrap() as u8).collect();
+        s.faults = env["faults"].as_array().unwrap().iter().map(|v| v.as_u64().unwrap() as u16).collect();
         let uv = &env["uv"];
         s.uv_asked = uv["kind"] == "asked";
         s.uv_answer = if uv["kind"] == "ok" || uv["kind"] == "asked" {
